@@ -414,3 +414,41 @@ func specialC13(c *core.Ctx) {
 		}
 	}
 }
+
+// specialC03: binary element-wise operations and comparisons on special data: a special tensor in either
+// position, both all zeros, and operands whose value ranges touch in exactly one value that both hold at the
+// same position (and at different positions).
+func specialC03(c *core.Ctx) {
+	ops := []string{"Add", "Sub", "Mul", "ElMax", "ElMin", "Gt", "Ge", "Lt", "Le", "Eq", "Ne"}
+	for _, s := range [][]int{{3}, {2, 3}, {2, 1, 2}, {4, 2}} {
+		type pair struct {
+			name string
+			a, b *ref.T
+		}
+		var pairs []pair
+		g1, g2 := enum.Generic(s, 71, 0.5, 3, true), enum.Generic(s, 72, 0.5, 3, true)
+		for name, t := range specialData(s, 73) {
+			pairs = append(pairs, pair{name + "@0", t, g2}, pair{name + "@1", g1, t})
+		}
+		pairs = append(pairs, pair{"zeros@both", ref.FullOf(s, 0), ref.FullOf(s, 0)}, pair{"ones-zeros", ref.FullOf(s, 1), ref.FullOf(s, 0)})
+		up := ref.Map(g1, math.Abs)
+		dn := ref.Map(g2, func(v float64) float64 { return -math.Abs(v) })
+		up.V[0], dn.V[0] = 0, 0 // ranges [0, max] and [min, 0] touch at 0, held by both at position 0
+		pairs = append(pairs, pair{"touching-same-position", up, dn}, pair{"touching-same-position-swapped", dn, up})
+		up2, dn2 := up.Clone(), dn.Clone()
+		up2.V[0], up2.V[len(up2.V)-1] = up2.V[len(up2.V)-1]+1, 0 // the shared value at different positions
+		pairs = append(pairs, pair{"touching-other-position", up2, dn2}, pair{"dominates", ref.Map(up, func(v float64) float64 { return v + 10 }), dn})
+		for _, k := range ops {
+			for _, pr := range pairs {
+				k, pr, s := k, pr, s
+				c.Case(fmt.Sprintf("special/%s/%v/%s", k, s, pr.name), true, func() core.Verdict {
+					v := applyBoth(ref.Op{K: k}, []*ref.T{pr.a, pr.b}, false)
+					if !v.OK {
+						v.Detail = "special operand data (" + pr.name + "): " + v.Detail
+					}
+					return v
+				})
+			}
+		}
+	}
+}
